@@ -49,7 +49,7 @@ Frac(num, den) ==
   IN <<(s * num) \div d, (s * den) \div d>>
 
 (* Comparison of a logged rational with an exact expectation.  The harness logs
-   <<p, q>> reduced when the float is within 1e-11 of a fraction with q <= 100000,
+   <<p, q>> reduced when the float is within 4e-11 of a fraction with q <= 100000,
    and <<round(x * 10^6), -1>> otherwise; in the second case the expectation must
    indeed have a larger denominator and agree to 6 decimals. *)
 RECURSIVE Digits(_, _, _, _)
